@@ -287,6 +287,14 @@ def check(ctx):
                        construct="%s/loss/fired-handle/%s" % (cls.qual, ".".join(loc)),
                        msg="%s leaves its fired handle in %s; connectionLost cancels it: AlreadyCalled skips the clean-up" % (short(ent.func.qual), ".".join(loc)))
                 break
+        seen_ul = set()
+        for tr, e, loc, tr2, e2 in hd.unstarted_loops():
+            if (e.func, loc) in seen_ul or not (True):
+                continue
+            seen_ul.add((e.func, loc))
+            ctx.ob("K3", "%s no periodic call is stored without being started (%s)" % (cq, tr.label()), False, where=where(e), function=e.func,
+                   construct="%s/loop-created-not-started/%s" % (e.func, ".".join(loc)),
+                   msg="%s creates the periodic call stored in %s without starting it; %s (%s) finds it not None and calls stop() on a loop that is not running: LoopingCall.stop() asserts - %s" % (tr.label(), ".".join(loc), tr2.label(), where(e2), 'the AssertionError leaves connectionLost before the clean-up, the state reset and the onDisconnection notification'))
         for tr, e, loc, tr2, e2 in hd.cancelled_kept():
             ctx.ob("K3", "%s connectionLost cancels no handle that was cancelled before (%s)" % (cq, tr.label()), False, where=where(e), function=e.func,
                    construct="%s/cancelled-handle-kept/%s" % (e.func, ".".join(loc)),
